@@ -18,6 +18,20 @@ CLAIMED = {
         design='5/C08'),
 }
 
+CLAIMED['C19'] = dict(
+    text='Machine-checked proof (Coq 8.16.1): executable models of merge_aiters / agen_with_wait / to_aiter whose labels carry '
+         'the scheduler (which source completes when, several completions in one wake-up, arbitrary set pop order); theorems '
+         'for every label sequence and any number/length of sources: projection on each tag is a prefix of / equals the source, '
+         'exact accounting (no loss, no duplication), termination exactly when all sources are exhausted, agen yields exactly '
+         'the wrapped items and raises only the exception of a failed awaited task, to_aiter yields exactly the items. Tied to '
+         '/repo by driving the real functions with gated sources under generated schedules (incl. exhaustive short schedules) '
+         'and comparing per-label outputs with the model evaluated by vm_compute.',
+    note='Trusted: Coq kernel; correspondence harness (gated sources, asyncio.wait order stub); asyncio.wait/ensure_future/'
+         'to_thread semantics are modelled, not verified. "First exception" is read at the granularity the generator can '
+         'observe (C19_agen_chronological_refuted documents the stricter reading). No axioms.',
+    technique='Coq invariant proofs over scheduler-labelled LTS models; hand-written model tied by differential correspondence',
+    design='5/C19')
+
 NOT_YET = {
 }
 
